@@ -461,6 +461,7 @@ def jobs(tier, seed):
     out.append({"part": "client", "tier": tier})
     out.append({"part": "exposed", "tier": tier})
     out.append({"part": "client_big", "tier": tier})
+    out.append({"part": "client_cancel", "tier": tier})
     out.append({"part": "sync", "tier": tier})
     sets = call_sets(tier)
     for lo in range(0, len(sets), 6):
@@ -755,6 +756,71 @@ def run_client_big(spec, acc):
             finally:
                 asyncio.open_unix_connection = saved
                 env.close()
+
+
+def run_client_cancel(spec, acc):
+    """Three concurrent calls on one asynchronous client, blocked in `drain()` after their
+    requests were written; every subset of callers is cancelled there, the buffer drains, and the
+    server answers ALL requests it received, in every order. The callers that were not cancelled
+    must get their own results: a response to a cancelled call is nobody's business."""
+    import pickle
+
+    from stepup.core.rpc import SocketAsyncRPCClient, _encode_body, _encode_message
+
+    for ncancel in (1, 2):
+        for cancelled in itertools.combinations((1, 2, 3), ncancel):
+            for order in itertools.permutations((1, 2, 3)):
+                env = Env()
+                saved = asyncio.open_unix_connection
+                try:
+                    reader = asyncio.StreamReader(loop=env.loop)
+                    writer = Writer()
+                    gate = env.loop.create_future()
+
+                    async def drain(gate=gate):
+                        await asyncio.shield(gate)
+
+                    writer.drain = drain
+
+                    async def fake_open(path, reader=reader, writer=writer):
+                        return reader, writer
+
+                    asyncio.open_unix_connection = fake_open
+                    client = SocketAsyncRPCClient("/nowhere")
+                    results = {}
+
+                    async def one(i, client=client, results=results):
+                        try:
+                            results[i] = ("value", await client(f"proc{i}", i))
+                        except BaseException as exc:  # noqa: BLE001
+                            results[i] = ("exc", type(exc).__name__)
+
+                    tasks = {i: env.loop.create_task(one(i)) for i in (1, 2, 3)}
+                    env.settle()
+                    for i in cancelled:
+                        tasks[i].cancel()
+                    env.settle()
+                    gate.set_result(None)
+                    env.settle()
+                    ids = {pickle.loads(b).name: cid for cid, b in writer.frames()}
+                    for i in order:
+                        reader.feed_data(_encode_message(ids[f"proc{i}"], _encode_body(f"r{i}")))
+                        env.settle()
+                    reader.feed_eof()
+                    env.settle()
+                    acc.evaluations += 1
+                    acc.nontrivial.add(h8(["cancel", cancelled, order]))
+                    acc.states.add(h8(["cancel", cancelled, order]))
+                    for i in (1, 2, 3):
+                        want = ("exc", "CancelledError") if i in cancelled else ("value", f"r{i}")
+                        if results.get(i) != want:
+                            acc.violation("C16|client-cancel|other-call-disturbed",
+                                          {"cancelled_callers": cancelled, "reply_order": order, "call": i,
+                                           "expected": want, "results": repr(results)}, None)
+                            break
+                finally:
+                    asyncio.open_unix_connection = saved
+                    env.close()
 
 
 class ScriptedSocket:
@@ -1143,6 +1209,8 @@ def run_job(spec):
         run_exposed(spec, acc)
     elif part == "client_big":
         run_client_big(spec, acc)
+    elif part == "client_cancel":
+        run_client_cancel(spec, acc)
     return acc
 
 
